@@ -11,6 +11,13 @@
      Send     from the second frame on, the frame carries every output the devices set during
               the preceding update, and every working counter in it is 0 (both bytes);
      Receive  the environment: same datagrams as the frame, arbitrary data and counters.
+     Lose     the environment: the frame on the wire is not answered (lost, or answered too
+              late for the group, which gives up waiting).  No update happens and nothing was
+              returned, so from the second cycle on nothing is reported as an error; the group
+              is back at Send, whose demands are unchanged: what is resent carries the outputs
+              of the last update and cleared counters.  (A response that arrives after the
+              group sent again counts as the response to the frame then on the wire: the
+              "latest response".)
 
    Where a variable lives in a frame is NOT taken from the code under test: it follows from
    EtherCAT addressing and the configuration of the segment - station addresses and process
@@ -116,6 +123,13 @@ Receive(R) == /\ phase = "recv"
               /\ SameShape(frame, R)
               /\ resp' = R /\ phase' = "update"
               /\ UNCHANGED <<cfg, k, frame, errs, lastsets, base, wrong>>
+
+(* e = the error counter observed when the group gives up on the frame *)
+Lose(e) == /\ phase = "recv"
+           /\ e \in Nat
+           /\ k >= 1 => e = errs
+           /\ errs' = e /\ phase' = "send" /\ frame' = <<>>
+           /\ UNCHANGED <<cfg, k, resp, lastsets, base, wrong>>
 
 (* obs = [ran |-> devices in the order their update ran, reads |-> << [v, val] >>,
           sets |-> << [v, val] >>, errs |-> the error counter after the update]             *)
